@@ -563,6 +563,92 @@ func runC03(env *core.Env, ci any) {
 	teardown(env, s)
 }
 
+// socks5AcceptAny accepts either "no authentication" or username/password,
+// whichever the client offers (preferring username/password), and reports the
+// credentials it was given.
+func socks5AcceptAny(conn net.Conn) (target, user, pass string, ok bool) {
+	rd := func(n int) []byte {
+		b := make([]byte, n)
+		if _, err := io.ReadFull(conn, b); err != nil {
+			return nil
+		}
+		return b
+	}
+	h := rd(2)
+	if h == nil || h[0] != 5 {
+		return
+	}
+	methods := rd(int(h[1]))
+	if methods == nil {
+		return
+	}
+	has := func(m byte) bool {
+		for _, x := range methods {
+			if x == m {
+				return true
+			}
+		}
+		return false
+	}
+	switch {
+	case has(2):
+		conn.Write([]byte{5, 2})
+		a := rd(2)
+		if a == nil || a[0] != 1 {
+			return
+		}
+		u := rd(int(a[1]))
+		pl := rd(1)
+		if u == nil || pl == nil {
+			return
+		}
+		p := rd(int(pl[0]))
+		user, pass = string(u), string(p)
+		conn.Write([]byte{1, 0})
+	case has(0):
+		conn.Write([]byte{5, 0})
+	default:
+		conn.Write([]byte{5, 0xff})
+		return
+	}
+	r := rd(4)
+	if r == nil || r[0] != 5 || r[1] != 1 {
+		return
+	}
+	var host string
+	switch r[3] {
+	case 1:
+		b := rd(4)
+		if b == nil {
+			return
+		}
+		host = net.IP(b).String()
+	case 4:
+		b := rd(16)
+		if b == nil {
+			return
+		}
+		host = net.IP(b).String()
+	case 3:
+		l := rd(1)
+		if l == nil {
+			return
+		}
+		b := rd(int(l[0]))
+		if b == nil {
+			return
+		}
+		host = string(b)
+	default:
+		return
+	}
+	pb := rd(2)
+	if pb == nil {
+		return
+	}
+	return net.JoinHostPort(host, fmt.Sprint(binary.BigEndian.Uint16(pb))), user, pass, true
+}
+
 // socks5Accept performs the server side of RFC 1928/1929 and returns the
 // requested host:port.
 func socks5Accept(conn net.Conn, wantAuth bool, user, pass string) (string, bool) {
